@@ -25,7 +25,7 @@ RULE = ("cases: configurators over 3-6 boolean items with 1-3 rules (plain and d
         "1-3 priority dictionaries per select() with 0-4 entries over item and helper ids, +-, ties and several levels; all feasible 0/1 points "
         "enumerated (<=16 columns), <=60 sampled points for pairs, all points for the argmax. non-trivial: >=2 feasible points with different "
         "keys; distinct by digest of (recipe, priorities)")
-BUDGET = {"quick": (8, 120, 60), "thorough": (16, 2000, 900)}
+BUDGET = {"quick": (12, 260, 90), "thorough": (16, 2000, 1200)}
 MANDATORY = ["judged:pair-order", "judged:argmax-set", "judged:default-prios", "count:with-defaults", "count:with-user-prios",
              "count:user-prio-on-helper", "count:negative-user-prio", "count:ties-in-user-prios"]
 
